@@ -27,6 +27,10 @@ User == /\ Is("user")
         /\ IF E.clear
            THEN /\ A("C08", "clear-accepted", E.ok)
                 /\ dict' = ClearUser(dict)
+           ELSE IF E.rows = <<>>
+           (* a CSV without rows: the pinned code reports an error (nothing to build a trie from); either
+              way the result is "no user lexicon" or "unchanged", never "the previous one kept on success" *)
+           THEN dict' = IF E.ok THEN SetUser(dict, <<>>) ELSE dict
            ELSE LET valid == RowsValid(dict, E.rows) IN
                 /\ A("C08", "user-lexicon-accepted-iff-valid", E.ok = valid)
                 /\ A("C10", "invalid-user-lexicon-rejected", ~valid => ~E.ok)
@@ -122,6 +126,6 @@ CliErr == Is("cli_err") /\ A("C10", "tool-failed", FALSE) /\ UNCHANGED <<dict, o
 
 Lift(a) == a /\ UNCHANGED <<lastop, lastp>>
 DNext == \/ CliTok \/ CliWakati \/ CliOrder \/ CliMapRel \/ CliErr \/ DSession \/ Proj \/ User \/ Map \/ WR \/ MapRel \/ DProbs \/ Lift(CInit) \/ Lift(CUpd)
-         \/ Lift(Reset) \/ Lift(Tok) \/ Lift(Read) \/ Lift(PanicStuck) \/ Lift(PanicElsewhere)
+         \/ Lift(BigSent) \/ Lift(Reset) \/ Lift(Tok) \/ Lift(Read) \/ Lift(PanicStuck) \/ Lift(PanicElsewhere)
 DSpec == DInit /\ [][DNext]_dvars
 ===========================================================================
